@@ -88,8 +88,10 @@ def oracle(scn, trace):
                             if c[f] != s[sf]:
                                 out.append(V("R1", f"handler context field {f} differs from the strategy's context", {"call": cid, "attempt": a.k, "handler": c, "strategy": {k: s[k] for k in ("attempt", "cls", "prev", "remaining", "cause", "ra")}, "entry": ent}))
                     else:
-                        if c["attempt"] != a.k or c["cls"] != a.fclass or c["cause"] != a.cause:
-                            out.append(V("R1", "handler context does not describe the failed attempt", {"call": cid, "attempt": a.k, "handler": c, "entry": ent}))
+                        # a legacy strategy only sees (attempt, class, prev): compare those with what it was given
+                        if c["attempt"] != s["attempt"] or c["cls"] != s["cls"] or c["prev"] != s["prev"]:
+                            out.append(V("R1", "handler context differs from what the (legacy) strategy was given", {"call": cid, "attempt": a.k, "handler": c,
+                                         "strategy": {k: s[k] for k in ("attempt", "cls", "prev")}, "entry": ent}))
             if aborted_early:
                 continue
             d = inf.decision
